@@ -654,3 +654,157 @@ Proof.
   destruct (update_state_ok pr last HI Hp) as (pr1 & E & _ & _ & Hr).
   rewrite E in Hu. inversion Hu; subst. apply Hr; exact Hs.
 Qed.
+
+(* ================================================================== *)
+(* 5. The entries handed to an append: contiguous, size-limited        *)
+(* ================================================================== *)
+
+(* What is needed of the log representation (C14 proves the full RaftLog
+   invariant; only these two facts are used here): the store satisfies the
+   MemStorage representation invariant, and the unstable entries are numbered
+   consecutively from the unstable offset. *)
+Definition LogInv (l : raft_log) : Prop :=
+  RepInv (store l) /\ contiguous_from (u_offset (unst l)) (u_entries (unst l)).
+
+Definition within_limit (mx : N) (ents : list entry) : Prop :=
+  mx <> NO_LIMIT -> total_size entry_size ents <= mx \/ length ents = 1%nat.
+
+Lemma limit_size_contig lo l max : contiguous_from lo l -> contiguous_from lo (limit_size l max).
+Proof.
+  intros H. destruct (limit_size_spec entry_size l max) as ((k & _ & E) & _).
+  unfold limit_size. rewrite E. apply contig_firstn. exact H.
+Qed.
+
+Lemma limit_size_within lo l mx :
+  contiguous_from lo l -> lo <> 0 -> within_limit mx (limit_size l (Some mx)).
+Proof.
+  intros Hc Hlo Hmx. destruct (limit_size_spec entry_size l (Some mx)) as (_ & _ & _ & Hs).
+  apply Hs; [|reflexivity|exact Hmx].
+  destruct l as [|e t]; [exact I|]. destruct Hc as [He _]. cbn.
+  apply entry_size_pos. congruence.
+Qed.
+
+Lemma limit_size_length_le l max : (length (limit_size l max) <= length l)%nat.
+Proof.
+  destruct (limit_size_spec entry_size l max) as ((k & Hk & E) & _).
+  unfold limit_size. rewrite E, firstn_length. lia.
+Qed.
+
+Lemma storage_entries_ok_spec m lo hi max ctx m' ents :
+  RepInv m -> storage_entries m lo hi max ctx = Ok (m', SOk ents) ->
+  exists raw, ents = limit_size raw max /\ contiguous_from lo raw /\
+              N.of_nat (length raw) <= hi - lo.
+Proof.
+  intros HI H. unfold storage_entries in H. rewrite (first_index_ok m HI) in H. cbn [bind] in H.
+  destruct (lo <? first_of m) eqn:E1; [discriminate|].
+  destruct (MemStorage.last_index m =? u64_max); [discriminate|].
+  destruct (MemStorage.last_index m + 1 <? hi); [discriminate|].
+  destruct (trig_log m && can_async ctx); [discriminate|].
+  destruct (MemStorage.entries m) as [|e0 t] eqn:El; [discriminate|].
+  rewrite (entries_head_index m e0 t El) in H.
+  destruct (hi <? first_of m) eqn:E4; [discriminate|].
+  match type of H with (if ?c then _ else _) = _ => destruct c eqn:E5 end; [discriminate|].
+  match type of H with (if ?c then _ else _) = _ => destruct c eqn:E6 end; [discriminate|].
+  injection H as _ He. subst ents. eexists. split; [reflexivity|]. split.
+  - apply contig_firstn.
+    replace lo with (first_of m + N.of_nat (N.to_nat (lo - first_of m))) at 1 by lia.
+    apply contig_skipn. destruct HI as (Hc & _). rewrite El in Hc. exact Hc.
+  - rewrite firstn_length. lia.
+Qed.
+
+Lemma u_slice_contig u lo hi ents :
+  contiguous_from (u_offset u) (u_entries u) -> u_slice u lo hi = Ok ents ->
+  contiguous_from lo ents.
+Proof.
+  intros Hc H. unfold u_slice in H. inv_bind H. inversion H; subst.
+  unfold u_must_check_outofbounds in Hx.
+  destruct (hi <? lo); [discriminate|].
+  destruct ((lo <? u_offset u) || (u_offset u + N.of_nat (length (u_entries u)) <? hi)) eqn:E;
+    [discriminate|].
+  apply orb_false_iff in E. destruct E as [E _].
+  apply contig_firstn.
+  replace lo with (u_offset u + N.of_nat (N.to_nat (lo - u_offset u))) at 1 by lia.
+  apply contig_skipn. exact Hc.
+Qed.
+
+(* RaftLog::slice: a successful read is numbered consecutively from [lo] and,
+   for lo <> 0 and a real limit, within the limit unless it is one entry *)
+Theorem slice_spec l lo hi mx ents :
+  LogInv l -> slice l lo hi (Some mx) = Ok (SOk ents) ->
+  contiguous_from lo ents /\ (lo <> 0 -> within_limit mx ents).
+Proof.
+  intros (HS & HU) H. unfold slice in H. inv_bind H.
+  destruct x as [e|]; [discriminate|].
+  assert (Hle : lo <= hi).
+  { unfold must_check_outofbounds in Hx. destruct (hi <? lo) eqn:E; [discriminate|]. lia. }
+  destruct (lo =? hi) eqn:Eeq.
+  { inversion H; subst. split; [exact I|]. intros _ _. left. cbn. lia. }
+  inv_bind H.
+  (* the stored part *)
+  assert (Hst : match x with
+                | inl early => early = SOk ents ->
+                               contiguous_from lo ents /\ (lo <> 0 -> within_limit mx ents)
+                | inr ents0 => contiguous_from lo ents0 /\
+                               (lo <? u_offset (unst l) = true ->
+                                lo + N.of_nat (length ents0) = N.min hi (u_offset (unst l))) /\
+                               (lo <? u_offset (unst l) = false -> ents0 = [])
+                end).
+  { clear H. destruct (lo <? u_offset (unst l)) eqn:Eoff.
+    - inv_bind Hx0. unfold store_entries in Hx1. inv_bind Hx1. inversion Hx1; subst. clear Hx1.
+      destruct x1 as [m' sr]. cbn [snd] in Hx0.
+      destruct sr as [ents0|e].
+      + destruct (storage_entries_ok_spec _ _ _ _ _ _ _ HS Hx2) as (raw & -> & Hc & Hlen).
+        match type of Hx0 with (if ?c then _ else _) = _ => destruct c eqn:Elen end;
+          inversion Hx0; subst.
+        * intros E. inversion E; subst. split; [apply limit_size_contig; exact Hc|].
+          intros Hlo. eapply limit_size_within; eassumption.
+        * split; [apply limit_size_contig; exact Hc|]. split; [|discriminate]. intros _.
+          pose proof (limit_size_length_le raw (Some mx)). lia.
+      + destruct e; inversion Hx0; subst; discriminate.
+    - inversion Hx0; subst. split; [exact I|]. split; [discriminate|reflexivity]. }
+  destruct x as [early|ents0].
+  - inversion H; subst. apply Hst. reflexivity.
+  - destruct Hst as (Hc0 & Hlen & Hnil). inv_bind H. inversion H; subst. clear H.
+    assert (Hc2 : contiguous_from lo x).
+    { destruct (u_offset (unst l) <? hi) eqn:Ehi.
+      - inv_bind Hx1. inversion Hx1; subst.
+        destruct (lo <? u_offset (unst l)) eqn:Eoff.
+        + apply contig_app; [exact Hc0|]. rewrite (Hlen eq_refl).
+          replace (N.min hi (u_offset (unst l))) with (N.max lo (u_offset (unst l))) by lia.
+          eapply u_slice_contig; eassumption.
+        + rewrite (Hnil eq_refl). cbn [app].
+          replace lo with (N.max lo (u_offset (unst l))) at 1 by lia.
+          eapply u_slice_contig; eassumption.
+      - inversion Hx1; subst. exact Hc0. }
+    split; [apply limit_size_contig; exact Hc2|]. intros Hlo. eapply limit_size_within; eassumption.
+Qed.
+
+Theorem log_entries_spec l i mx ents :
+  LogInv l -> log_entries l i (Some mx) = Ok (SOk ents) ->
+  contiguous_from i ents /\ (i <> 0 -> within_limit mx ents).
+Proof.
+  intros HI H. unfold log_entries in H.
+  destruct (RaftLog.last_index l <? i).
+  - inversion H; subst. split; [exact I|]. intros _ _. left. cbn. lia.
+  - eapply slice_spec; eassumption.
+Qed.
+
+(* Theorem 3: the entries of an emitted MsgAppend (batching off) are numbered
+   next_idx, next_idx+1, ..., i.e. start right after the anchor m_index, and
+   are within max_size_per_msg unless a single entry *)
+Theorem append_entries_contiguous r to pr ae r' pr' m :
+  LogInv (r_log r) -> r_batch_append r = false ->
+  maybe_send_append r to pr ae = Ok (r', pr', true) ->
+  r_msgs r' = r_msgs r ++ [m] -> m_type m = MsgAppend ->
+  contiguous_from (m_index m + 1) (m_entries m) /\
+  (r_max_msg_size r <> NO_LIMIT ->
+     total_size entry_size (m_entries m) <= r_max_msg_size r \/ length (m_entries m) = 1%nat).
+Proof.
+  intros HL Hb H Hm Ht.
+  destruct (maybe_send_append_shape _ _ _ _ _ _ Hb H) as (_ & m0 & -> & _ & _ & _ & C).
+  cbn in Hm. apply app_inv_head in Hm. inversion Hm; subst m0. clear Hm.
+  destruct C as [(_ & Ht' & _)|(_ & _ & _ & Hnx & Hidx & _ & He & _)]; [rewrite Ht in Ht'; discriminate|].
+  destruct (log_entries_spec _ _ _ _ HL He) as (Hc & Hw).
+  rewrite Hidx. replace (next_idx pr - 1 + 1) with (next_idx pr) by lia.
+  split; [exact Hc|]. apply Hw. exact Hnx.
+Qed.
